@@ -20,8 +20,22 @@ BRANCHES = [S.b58enc('B', h) for h in H32[:2]]
 SOURCES = [addr(k, i) for k in ('tz1', 'tz2', 'tz3', 'tz4') for i in (2,)] + [addr('tz1', 0), addr('tz4', 1), addr('tz2', 3), addr('tz3', 4)]
 DESTS = [addr(k, i) for k in ('tz1', 'tz2', 'tz3', 'tz4', 'KT1') for i in (2, 4)] + [addr('KT1', 0), addr('KT1', 1)]
 # LEB128 boundaries up to 2^70
+# ... and far beyond ("up to 2^64 and beyond": the encoding is unbounded, so are Python ints): 128 / 256-bit boundaries
 NUMS = [0, 1, 127, 128, 129, 16383, 16384, 2 ** 21 - 1, 2 ** 21, 2 ** 31 - 1, 2 ** 32, 2 ** 56, 2 ** 63 - 1, 2 ** 63, 2 ** 64 - 1,
-        2 ** 64, 2 ** 70 - 1, 2 ** 70]
+        2 ** 64, 2 ** 70 - 1, 2 ** 70, 2 ** 128 - 1, 2 ** 128, 2 ** 256 + 1]
+# Unit spellings.  Tezos elides `parameters` only for the default entrypoint with the bare node Prim(D_Unit, [], []): no args AND
+# no annotations; an explicit EMPTY `args` / `annots` list in the JSON is the same node (specs/micheline_bin.normalize), an
+# ANNOTATED Unit is another node and is forged explicitly (ff 00 dyn(04 0b len32 annots)).
+UNIT_ANNOTATED = [{'prim': 'Unit', 'annots': ['%x']}, {'prim': 'Unit', 'args': [], 'annots': ['%x', ':t']}]
+UNIT_EMPTY_LISTS = [{'prim': 'Unit', 'args': []}, {'prim': 'Unit', 'annots': []}, {'prim': 'Unit', 'args': [], 'annots': []}]
+# CANDIDATE_DEFECT (disabled, reported to the lead; NOT part of the registered run): default entrypoint + Unit spelled with an
+# empty list must forge as "no parameters" (00); pytezos' has_parameters compares with the literal {'prim': 'Unit'} and forges
+# ff 00 00000002 030b (parameters present), which is not the canonical encoding.  Guards the obligations
+# forge_operation::ensures.canonical_bytes / forge_operation_group::ensures.canonical_bytes (R) and
+# forge_transaction[transaction+%default Unit with empty lists#i]::ensures.fields==schema(...) (P) on these inputs only;
+# every other combination (empty lists x non-default entrypoints, annotated Unit x every entrypoint) IS in the registered run.
+CANDIDATE_DEFECT_UNIT_SPELLINGS = True      # fixed in /repo 8cb6fca: kept as a switch for trees older than the fix
+UNIT_SPELLINGS = UNIT_EMPTY_LISTS
 RESERVED = list(S.ENTRYPOINT_TAGS)
 NAMED = ['a', 'ab', 'mint', 'Default', 'DO', 'defaul', 'default1', 'default_', 'stake1', 'un_stake', 'set_delegate_', 'root0',
          'transfer', 'x' * 30, 'y' * 31, 'a.b_c%d@e', '0', '_'] + ['e' * n for n in range(1, 32)]
@@ -72,6 +86,24 @@ def single_contents():
         for i, v in enumerate(VALUES if (ep in RESERVED or len(ep) in (1, 4, 31)) else VALUES[:3]):
             yield f'transaction entrypoint={ep if ep in RESERVED else kind} value#{i}', tx(dest=DESTS[8], params={'entrypoint': ep, 'value': v})
     yield 'transaction parameters=None-key-absent', tx()
+    # absent-by-value: the key is there, the value is falsy (pytezos reads `not content.get('parameters')`)
+    for nm, falsy in (('None', None), ('{}', {})):
+        c = tx(dest=DESTS[8])
+        c['parameters'] = falsy
+        yield f'transaction parameters={nm} (key present)', c
+    for ep in ('default', 'root', 'stake', 'mint', 'Default', 'y' * 31):
+        for i, v in enumerate(UNIT_ANNOTATED):
+            yield f'transaction entrypoint={ep if ep in RESERVED else "named"} annotated-Unit#{i}', tx(dest=DESTS[8], params={'entrypoint': ep, 'value': v})
+            yield f'transaction entrypoint={ep if ep in RESERVED else "named"} annotated-Unit#{i} to implicit', tx(dest=DESTS[0], params={'entrypoint': ep, 'value': v})
+        for i, v in enumerate(UNIT_EMPTY_LISTS):
+            if ep != 'default' or CANDIDATE_DEFECT_UNIT_SPELLINGS:
+                yield f'transaction entrypoint={ep if ep in RESERVED else "named"} Unit-empty-lists#{i}', tx(dest=DESTS[8], params={'entrypoint': ep, 'value': v})
+    # numeric fields given as Python ints instead of decimal strings (the forgers read them through int(...))
+    for n in (0, 1, 128, 2 ** 64, 2 ** 128):
+        c = tx(dest=DESTS[8])
+        for f in ('fee', 'counter', 'gas_limit', 'storage_limit', 'amount'):
+            c[f] = n
+        yield f'transaction int-typed numerics={n.bit_length()}bits', c
     yield 'transaction parameters=default/Unit to implicit', tx(dest=DESTS[0], params={'entrypoint': 'default', 'value': {'prim': 'Unit'}})
     # --- reveal
     for k in ('edpk', 'sppk', 'p2pk', 'BLpk'):
@@ -97,6 +129,14 @@ def single_contents():
                     c['delegate'] = deleg
                 c['script'] = {'code': code, 'storage': storage}
                 yield f'origination delegate={deleg[:3] if deleg else None} balance={bal.bit_length()}bits', c
+    # delegate present but empty: '' / None mean "no delegate" (OperationGroup.delegation() writes '' by default)
+    for falsy in ('', None):
+        c = hdr('origination')
+        c.update(balance=5, delegate=falsy, script={'code': CODE, 'storage': {'prim': 'Unit'}})
+        yield f'origination delegate={falsy!r} (key present) int balance', c
+        c = hdr('delegation', source=SOURCES[2])
+        c['delegate'] = falsy
+        yield f'delegation delegate={falsy!r} (key present)', c
     # --- delegation
     for deleg in [None] + SOURCES:
         c = hdr('delegation', source=SOURCES[1])
@@ -117,6 +157,10 @@ def single_contents():
                     c = hdr('transfer_ticket')
                     c.update(ticket_contents=contents, ticket_ty=ty, ticket_ticketer=DESTS[9], ticket_amount=str(amt), destination=dest, entrypoint=ep)
                     yield f'transfer_ticket dest={dest[:3]} entrypoint-len={len(ep)} amount={amt.bit_length()}bits', c
+    for tk in (DESTS[0], DESTS[3], DESTS[10]):          # ticketer of every contract_id form (implicit tz1 / tz2, another KT1)
+        c = hdr('transfer_ticket')
+        c.update(ticket_contents={'int': '7'}, ticket_ty={'prim': 'nat'}, ticket_ticketer=tk, ticket_amount=2 ** 128, destination=DESTS[9], entrypoint='')
+        yield f'transfer_ticket ticketer={tk[:3]} empty entrypoint int amount', c
     # --- smart rollups
     for msgs in ([], [''], ['00'], ['00', ''], ['ff' * 300], ['0a', 'DEADBEEF'.lower(), '00' * 5], [''] * 3):
         c = hdr('smart_rollup_add_messages', source=SOURCES[3])
@@ -127,6 +171,14 @@ def single_contents():
             c = hdr('smart_rollup_execute_outbox_message')
             c.update(rollup=S.b58enc('sr1', H20[i]), cemented_commitment=S.b58enc('src1', H32[i]), output_proof=proof)
             yield f'smart_rollup_execute_outbox_message proof-bytes={len(proof) // 2}', c
+    # hex-string fields in UPPER case (bytes.fromhex reads both cases; the normal form is lower case)
+    c = hdr('smart_rollup_add_messages', source=SOURCES[3])
+    c['message'] = ['DEADBEEF', 'aB', '']
+    yield 'smart_rollup_add_messages upper-case hex', c
+    c = hdr('smart_rollup_execute_outbox_message')
+    c.update(rollup=S.b58enc('sr1', H20[1]), cemented_commitment=S.b58enc('src1', H32[1]), output_proof='00FFAB')
+    yield 'smart_rollup_execute_outbox_message upper-case hex', c
+    yield 'activate_account upper-case secret', {'kind': 'activate_account', 'pkh': addr('tz1', 1), 'secret': bytes(range(236, 256)).hex().upper()}
     # --- failing_noop / activate_account
     for s in ('', 'msg1', 'Tezos Signed Message: héllo ✓', 'x' * 300, '\x00\x01'):
         yield f'failing_noop len={len(s.encode())}', {'kind': 'failing_noop', 'arbitrary': s}
@@ -145,6 +197,7 @@ def representatives():
         reps.append(cs[len(cs) // 2])
     reps.append(tx(dest=DESTS[8], params={'entrypoint': 'stake', 'value': {'prim': 'Unit'}}))
     reps.append(tx(dest=DESTS[8], params={'entrypoint': 'y' * 31, 'value': {'int': '5'}}))
+    reps.append(tx(dest=DESTS[8], params={'entrypoint': 'default', 'value': UNIT_ANNOTATED[0]}))
     return reps
 
 
@@ -155,9 +208,19 @@ def groups(thorough):
             yield f'1 content: {label}', {'branch': b, 'contents': [c]}
     reps = representatives()
     if not thorough:
-        reps = reps[::2] + reps[-2:]
+        reps = reps[:-3:2] + reps[-3:]
     for a, b in itertools.product(reps, repeat=2):
         yield f'2 contents: {a["kind"]},{b["kind"]}', {'branch': BRANCHES[1], 'contents': [a, b]}
     trip = reps if thorough else reps[::2]
     for a, b, c in itertools.product(trip, repeat=3):
         yield f'3 contents: {a["kind"]},{b["kind"]},{c["kind"]}', {'branch': BRANCHES[0], 'contents': [a, b, c]}
+    # "1..n contents": batches beyond 3 - every kind once (both orders), 4/5-content windows, a large batch that repeats
+    # the same content objects and mixes sizes
+    full = representatives()
+    yield f'{len(full)} contents: every kind', {'branch': BRANCHES[0], 'contents': list(full)}
+    yield f'{len(full)} contents: every kind, reversed', {'branch': BRANCHES[1], 'contents': list(reversed(full))}
+    for n in (4, 5, 8):
+        for i in range(0, len(full), 3):
+            w = [full[(i + j * 5) % len(full)] for j in range(n)]
+            yield f'{n} contents: window', {'branch': BRANCHES[0], 'contents': w}
+    yield '64 contents: repeated objects', {'branch': BRANCHES[1], 'contents': [full[(i * 7) % len(full)] for i in range(64)]}
